@@ -73,6 +73,19 @@ Example C05_directory_example :
   s_dirs (fst (step s2 (OMatch ASnap 1 (B "TestA") (POk (B "v"))))) = (s_dirs s2 ++ [B "/S/d"])%list.
 Proof. vm_compute. repeat split. Qed.
 
+(* non-vacuity of C05_ci_no_directory: a CI process in which two tests make five calls through two Configs (all of them fail:
+   nothing is recorded) - the premises hold and the directory list is what it was *)
+Example C05_ci_no_directory_example :
+  let e := {| ci := true; upd := UTrue; colour := false |} in
+  let s0 := init_state e (B "/r/x_test.go") (B "/S/def") in
+  let ops := [ONewConfig None (Some (B "/S/d")) None (Some true);
+              OMatch ASnap 1 (B "TestA") (POk (B "v")); OMatch AStand 1 (B "TestA") (POk (B "w")); OEndTest (B "TestA");
+              OMatch AJson 0 (B "TestB") (POk (B "{}")); OMatch AStandJson 0 (B "TestB") (POk (B "{}")); OMatch AYaml 1 (B "TestB") (POk (B "a: 1"))] in
+  Forall api_op ops /\ ci (s_env s0) = true /\
+  s_dirs (fst (run s0 ops)) = s_dirs s0 /\
+  map o_outcome (snd (run s0 ops)) = [NoCall; Failed ENotFound; Failed ENotFound; NoCall; Failed ENotFound; Failed ENotFound; Failed ENotFound].
+Proof. split; [repeat constructor|]. vm_compute. repeat split. Qed.
+
 Example C05_example :
   let e := {| ci := true; upd := UTrue; colour := false |} in
   let s := init_state e [47; 120]%N [47; 83]%N in
